@@ -3,6 +3,21 @@
 use crate::sym::*;
 
 crate::harnesses! {
+    // assume_specification [u64::reverse_bits] (unit revbits): bit j of the result is bit 63 - j of the operand
+    fn core_specs_u64_reverse_bits() {
+        let x: u64 = any();
+        let j: u32 = any();
+        assume(j < 64);
+        assert!((x.reverse_bits() >> j) & 1 == (x >> (63 - j)) & 1, "reverse_bits mirrors the word");
+    }
+    // N14 wrapper reverse_arr (unit revbits): std's slice::reverse on an array of length 5 (bounded in length)
+    #[cfg_attr(kani, kani::unwind(7))] fn core_specs_array_reverse_len5() {
+        let a: [u64; 5] = any();
+        let mut b = a;
+        b.reverse();
+        let mut i = 0;
+        while i < 5 { assert!(b[i] == a[4 - i], "reverse: element i is element N-1-i"); i += 1; }
+    }
     // N14 wrappers position_nonzero_arr / position_not_max_arr (unit trailing): std's Iterator::position on arrays of
     // length 5 with any contents (bounded in length)
     #[cfg_attr(kani, kani::unwind(7))] fn core_specs_position_len5() {
